@@ -83,5 +83,32 @@ def flight(rng, nseg, start, zkinds=(0, 1, 2), xykinds=(0, 1, 2), zrange=(-200, 
     return segs, (x, y, z, w)
 
 
+def shape_pattern(z0, p):
+    """sign pattern of the quantities the cubic touch test branches on (power basis of the Bezier z0,p0,p1,p2)"""
+    c = 3 * (p[0] - z0)
+    b = 3 * (z0 - 2 * p[0] + p[1])
+    a = p[2] - 3 * p[1] + 3 * p[0] - z0
+    sg = lambda v: (v > 0) - (v < 0)
+    d1 = 3 * a + 2 * b + c
+    crit = sg(c * 3 * a - b * b) * sg(a) if a != 0 else 0   # sign of c - b^2/(3a)
+    return (sg(a), sg(b), sg(c), sg(d1), sg(b + 3 * a), crit, sg(3 * a + b + c))
+
+
+def stratified_cubics(rng, tries, per_pattern=2, lo=-400, hi=2500):
+    """cubic altitude shapes (start, 3 stored points) covering as many branch patterns of the touch test as possible"""
+    seen = {}
+    for _ in range(tries):
+        z0 = rng.randint(0, 600)
+        p = [z0 + rng.choice([0, 0, rng.randint(lo, hi)]), z0 + rng.randint(lo, hi), z0 + rng.randint(lo, hi)]
+        if not well_conditioned_cubic(z0, p):
+            continue
+        if min(p) < -32000 or max(p) > 32000:
+            continue
+        k = shape_pattern(z0, p)
+        if len(seen.setdefault(k, [])) < per_pattern:
+            seen[k].append((z0, p))
+    return [x for v in seen.values() for x in v]
+
+
 def fb(x):
     return str(f2b(x))
